@@ -222,6 +222,8 @@ func c19GenTree(r *lib.Rng, class string, thorough bool) *lib.Build {
 		}
 	case "contents":
 		c19GenContents(r, put, thorough)
+	case "linkdests":
+		c19GenLinkDests(r, put, thorough)
 	}
 	return b
 }
@@ -717,6 +719,7 @@ func runC19(c0 *Ctx) error {
 		defer os.RemoveAll(tmp)
 		c.Tmp = tmp
 	}
+	c19LinkMax = c19ProbeLinkMax(c.Tmp)
 	t0 := time.Now()
 	phase := func(name string) {
 		if os.Getenv("VERIF_TIMING") != "" {
@@ -750,8 +753,12 @@ func runC19(c0 *Ctx) error {
 		return err
 	}
 	phase("contents")
-	err := c19BudgetCases(c)
+	if err := c19BudgetCases(c); err != nil {
+		return err
+	}
 	phase("cpu budgets")
+	err := c19LinkDestCases(c)
+	phase("link dests")
 	return err
 }
 
@@ -942,7 +949,7 @@ func c19OneExtract(c *Ctx, cr *lib.Rng, b *lib.Build, class, flavor string, work
 			if err != nil {
 				return err
 			}
-			if d := lib.DiffBuilds(got, b); d != "" && oracle == "" {
+			if d := c19DiffBuilds(got, b); d != "" && oracle == "" {
 				oracle = "extracted tree differs from the source tree: " + d
 			}
 			if want := c19BuildCounts(b); run.Counts != want && oracle == "" {
@@ -959,7 +966,10 @@ func c19OneExtract(c *Ctx, cr *lib.Rng, b *lib.Build, class, flavor string, work
 		}
 	}
 	clsName := fmt.Sprintf("extract/%s/%s/w%d", flavor, class, workers)
-	input := map[string]interface{}{"tree": b.Summary(), "flavor": flavor, "workers": workers, "resumeFile": withResume}
+	input := map[string]interface{}{"tree": c19Summary(b), "flavor": flavor, "workers": workers, "resumeFile": withResume}
+	if class == "linkdests" {
+		input["longestLinkDestOfScratchFS"] = c19LinkMax
+	}
 	if env.restricted() {
 		clsName += "/" + env.String()
 		input["cpusAllowed"], input["GOMAXPROCS"] = env.Cpus, env.Procs
@@ -1524,7 +1534,7 @@ func c19ResumeConfig(c *Ctx, cr *lib.Rng, b *lib.Build, class, flavor string, wo
 			if err != nil {
 				return err
 			}
-			if d := lib.DiffBuilds(got, b); d != "" {
+			if d := c19DiffBuilds(got, b); d != "" {
 				oracle = fmt.Sprintf("after interruption(s) %v and restart (resume file said %d) the tree is not complete: %s", chain, lastDone, d)
 			} else {
 				// the restarted run extracted at least what was missing or incomplete, at most everything
@@ -1564,7 +1574,10 @@ func c19ResumeConfig(c *Ctx, cr *lib.Rng, b *lib.Build, class, flavor string, wo
 		if corpus != "" {
 			cls = "corpus/" + corpus
 		}
-		input := map[string]interface{}{"tree": b.Summary(), "flavor": flavor, "workers": workers, "killAfterCallbacks": chain, "interruptBy": mode}
+		input := map[string]interface{}{"tree": c19Summary(b), "flavor": flavor, "workers": workers, "killAfterCallbacks": chain, "interruptBy": mode}
+		if class == "linkdests" {
+			input["longestLinkDestOfScratchFS"] = c19LinkMax
+		}
 		if env.restricted() {
 			cls += "/" + env.String()
 			input["cpusAllowed"], input["GOMAXPROCS"] = env.Cpus, env.Procs
